@@ -19,7 +19,7 @@ PID = "C02"
 RULE = ("well-formed closed programs from the grammar-directed generator plus optimizer-targeted templates (constant expressions over all literal "
         "types incl. fold-time errors; x (op) constant; constant if/ternary conditions and if-init; blocks with/without declarations; dead statements; "
         "return forms; for(var i=C;i<C;++i) exactly and near misses with break/continue/assign/shadow/return/closure capture of the counter; "
-        "var x = e incl. redeclaration; unused call results; int()/double()/... of constants). Oracle = differential: default optimizer vs "
+        "var x = e incl. redeclaration; && / || with a constant on one side and an operand of any type on the other; a for loop re-entered (recursion from its body, closures of an earlier entry called during a later one); unused call results; int()/double()/... of constants). Oracle = differential: default optimizer vs "
         "optimization disabled. non-trivial = the two parse trees differ (>=1 rewrite fired); distinct = distinct program texts")
 
 INT_LITS = ["0", "1", "2", "3", "7", "10", "255", "1000", "2147483647", "3u", "7u", "4294967295u", "5l", "9ul", "3ll", "8ull", "0x10", "0b101", "017"]
@@ -57,7 +57,7 @@ class T:
 
     def stmts(self):
         """one template instance: list of source lines"""
-        k = self.i(0, 21)
+        k = self.i(0, 24)
         v = self.name("x")
         w = self.name("y")
         f = self.name("fn")
@@ -165,6 +165,28 @@ class T:
             return ["print(\"before%s\")" % v, "print(%s)" % self.pick(["1/0", "5%0", "1 << 40", "(0-2147483647-1)/(0-1)", "2147483647 + 1", "1.0/0", "-5 % 3", "7u - 9u", "'a' + 1"])]
         if k == 20:  # logical operators with side effects
             return ["def %s(a) { rec(a); a > %d }" % (f, c1), "print(%s(1) && %s(5))" % (f, f), "print(%s(5) || %s(1))" % (f, f), "print(true || %s(9))" % f, "print(false && %s(9))" % f]
+        if k >= 23:  # one loop *node* entered again while an earlier entry is still alive: recursion from the body, closures of an earlier entry called during a later one
+            lo, hi = self.i(0, 1), self.i(2, 4)
+            head = self.pick(["for (var I = %d; I < %d; ++I)" % (lo, hi)] * 3 + ["for (var I = %d; I <= %d; ++I)" % (lo, hi), "for (auto I = %d; I < %d; ++I)" % (lo, hi)]).replace("I", v)
+            kind = self.i(0, 3)
+            if kind == 0:
+                return ["def %s(n) { %s { rec(n * 10 + %s); if (n > 0) { %s(n - 1) } }; n }" % (f, head, v, f), "print(%s(%d))" % (f, self.i(1, 2))]
+            if kind == 1:
+                return ["def %s(h) { var r = fun() { -1 }; %s { rec(h()); r = fun[%s]() { %s } }; r }" % (f, head, v, v),
+                        "var %s = %s(fun() { -5 })" % (w, f), "var %s2 = %s(%s)" % (w, f, w), "print(%s())" % w, "print(%s2())" % w]
+            if kind == 2:
+                return ["var %s = []" % w, "def %s(n) { %s { %s.push_back(fun[%s, n]() { %s * 100 + n }); for (g : %s) { rec(g()) } } }" % (f, head, w, v, v, w), "%s(1)" % f, "%s(2)" % f,
+                        "for (g : %s) { print(g()) }" % w]
+            return ["def %s(n) { var s = 0; %s { s += %s; if (n > 0 && %s == %d) { s += %s(n - 1) * 10 } }; s }" % (f, head, v, v, lo + 1, f), "print(%s(2))" % f, "print(%s(0))" % f]
+        if k == 22:  # && / || with a constant on one side and an operand of any type (bool or not) on the other: type checks and short circuits stay
+            C = self.pick(["true", "false", "1 < 2", "!true", "2 == 3"])
+            E = self.pick(["5", "0", "\"s\"", v, "%s(1)" % f, "%s(9)" % f, "[1]", "3.5", "%s_b" % v, "(%s > 1)" % v, "%s_i()" % f, "'c'"])
+            form = self.pick(["%s && %s", "%s || %s"]) % ((C, E) if self.i(0, 2) else (E, C))
+            use = self.pick(["print(%s)", "rec(%s)", "if (%s) { print(\"T\") } else { print(\"F\") }", "var %s_r = %%s; print(%s_r)" % (w, w), "print(!(%s))", "print((%s) ? 1 : 2)",
+                             "print(true && (%s))",
+                             "var %s_a := (%%s); print(%s_b); print(%s)" % (w, v, v), "var %s_a = (%%s); %s_a = !%s_a; print(%s_b)" % (w, w, w, v)]) % form
+            return ["var %s = %d" % (v, c1), "var %s_b = %s" % (v, self.pick(["true", "false"])), "def %s(a) { rec(a); a > %d }" % (f, c2), "def %s_i() { rec(\"i\"); %d }" % (f, c1),
+                    "print(\"before\")", use, "print(\"after\")"]
         return ["var %s = %d" % (v, c1), "var %s = %s" % (w, self.const_expr()), "print(%s)" % w, "print(%s %s %s)" % (v, self.pick(["+", "*", "-", "<", "=="]), self.pick(INT_LITS))]
 
 
